@@ -103,6 +103,480 @@ fn probe(path: &str) {
     println!("opt   {:?}", b);
 }
 
+
+// ---------------------------------------------------------------------------------------------
+// Program construction
+
+/// Extra top-level definitions every C04 program gets after `surf::HEADER`: the logging extern
+/// reached directly, through record fields, through closures and through an imported module.
+const HEADER2: &str = "let h = import! \"verif.h\"\nlet { vlog } = h\nlet vm = import! vmod\nlet vr = { f = vlog, g = \\x -> error \"boom\", k = 7, n = { f = h.vlog } }\nlet vpa = \\a b -> vlog (a #Int+ b)\nlet vcl = \\x -> (let _ = vlog x in x)\n";
+
+const VMOD: &str = "let h = import! \"verif.h\"\nlet { error } = import! std.prim\n{ tick = \\x -> h.vlog x, boom = \\x -> error \"mboom\", twice = \\f x -> f (f x), quiet = \\x -> x #Int+ 1 }\n";
+
+use surf::{b, Expr, Pat, Src};
+
+fn var(x: &str) -> Expr {
+    Expr::Var(x.to_string())
+}
+fn app(f: Expr, args: Vec<Expr>) -> Expr {
+    Expr::App(b(f), args)
+}
+fn proj(e: Expr, f: &str) -> Expr {
+    Expr::Proj(b(e), f.to_string(), 0)
+}
+fn record(fields: Vec<(&str, Expr)>) -> Expr {
+    let layout = (0..fields.len()).map(Src::Field).collect();
+    Expr::Record { fields: fields.into_iter().map(|(n, e)| (n.to_string(), e)).collect(), base: None, layout }
+}
+fn prim(op: &'static str, a: Expr, bb: Expr) -> Expr {
+    Expr::Prim(op, b(a), b(bb))
+}
+
+pub const N_FORMS: usize = 24;
+
+/// The discarded expression of form `form` (an effectful / failing / pure computation whose
+/// result the program throws away) and a pattern that fits it.  `k` tags the call in the log.
+fn discard_form(form: usize, k: i64) -> (&'static str, Pat, Expr) {
+    let kk = Expr::Int(k);
+    let w = Pat::Wild;
+    match form {
+        0 => ("direct", w, app(var("vlog"), vec![kk])),
+        1 => ("field", w, app(proj(var("vr"), "f"), vec![kk])),
+        2 => ("nested-field", w, app(proj(proj(var("vr"), "n"), "f"), vec![kk])),
+        3 => ("field-failing", w, app(proj(var("vr"), "g"), vec![kk])),
+        4 => ("module-field", w, app(proj(var("vm"), "tick"), vec![kk])),
+        5 => ("module-failing", w, app(proj(var("vm"), "boom"), vec![kk])),
+        6 => ("partial", w, app(app(var("vpa"), vec![kk]), vec![Expr::Int(1)])),
+        7 => (
+            "partial-named",
+            w,
+            Expr::Let(Pat::Var("pa".into()), b(app(var("vpa"), vec![kk])), b(app(var("pa"), vec![Expr::Int(2)]))),
+        ),
+        8 => ("closure", w, app(var("vcl"), vec![kk])),
+        9 => ("lambda", w, app(Expr::Lam(vec!["lx".into()], b(app(var("vlog"), vec![var("lx")]))), vec![kk])),
+        10 => ("arith-div0", w, prim("/", kk, Expr::Int(0))),
+        11 => ("arith-overflow", w, prim("+", Expr::Int(i64::MAX), prim("+", kk, Expr::Int(1)))),
+        12 => (
+            "if-callee",
+            w,
+            app(Expr::If(b(Expr::True), b(proj(var("vr"), "f")), b(var("vlog"))), vec![kk]),
+        ),
+        13 => (
+            "match-callee",
+            w,
+            Expr::Match(
+                b(var("vr")),
+                vec![(Pat::Rec(vec![("f".into(), 0, Pat::Var("mf".into()))]), app(var("mf"), vec![kk]))],
+            ),
+        ),
+        14 => ("builtin-arg", w, prim("+", app(var("vlog"), vec![kk]), Expr::Int(1))),
+        15 => (
+            "tuple-pattern",
+            Pat::Tup(vec![Pat::Var("ta".into()), Pat::Wild]),
+            Expr::Tuple(vec![app(var("vlog"), vec![kk]), Expr::Int(2)]),
+        ),
+        16 => (
+            "record-pattern",
+            Pat::Rec(vec![("ra".into(), 0, Pat::Var("ra".into()))]),
+            record(vec![("ra", app(proj(var("vr"), "f"), vec![kk])), ("rb", Expr::Int(3))]),
+        ),
+        17 => (
+            "literal-proj",
+            w,
+            proj(record(vec![("x", app(var("vlog"), vec![kk])), ("y", Expr::Int(2))]), "y"),
+        ),
+        18 => ("array", w, Expr::Array(vec![app(proj(var("vm"), "tick"), vec![kk])])),
+        19 => ("pure-proj", w, proj(var("vr"), "k")),
+        20 => (
+            "twice",
+            w,
+            app(proj(var("vm"), "twice"), vec![proj(var("vr"), "f"), kk]),
+        ),
+        21 => ("named-unused", Pat::Var("unused".into()), app(proj(var("vr"), "f"), vec![kk])),
+        22 => (
+            "literal-proj-effect-dropped-field",
+            w,
+            proj(
+                record(vec![
+                    ("x", app(proj(var("vm"), "tick"), vec![kk.clone()])),
+                    ("y", prim("/", kk, Expr::Int(0))),
+                    ("z", Expr::Int(1)),
+                ]),
+                "z",
+            ),
+        ),
+        _ => ("pure-module-call", w, app(proj(var("vm"), "quiet"), vec![kk])),
+    }
+}
+
+fn discard(form: usize, k: i64, body: Expr) -> (&'static str, Expr) {
+    let (name, p, d) = discard_form(form, k);
+    (name, Expr::Let(p, b(d), b(body)))
+}
+
+pub const N_CTX: usize = 10;
+
+/// A small program exercising one discard form in one context.
+fn targeted(form: usize, ctx: usize) -> (String, Expr) {
+    let (fname, inner) = discard(form, 100 + form as i64, Expr::Int(1));
+    let (cname, e) = match ctx {
+        0 => ("top", inner),
+        1 => (
+            "closure-called",
+            Expr::Let(
+                Pat::Var("cf".into()),
+                b(Expr::Lam(vec!["cy".into()], b(prim("+", inner, var("cy"))))),
+                b(app(var("cf"), vec![Expr::Int(2)])),
+            ),
+        ),
+        2 => (
+            "closure-uncalled",
+            Expr::Let(
+                Pat::Var("cf".into()),
+                b(Expr::Lam(vec!["cy".into()], b(prim("+", inner, var("cy"))))),
+                b(Expr::Int(3)),
+            ),
+        ),
+        3 => (
+            "rec-fun",
+            Expr::LetRec(
+                vec![(
+                    "rf".into(),
+                    vec!["rn".into()],
+                    Expr::If(
+                        b(prim("<", var("rn"), Expr::Int(1))),
+                        b(Expr::Int(0)),
+                        b(prim("+", inner, app(var("rf"), vec![prim("-", var("rn"), Expr::Int(1))]))),
+                    ),
+                )],
+                b(app(var("rf"), vec![Expr::Int(2)])),
+            ),
+        ),
+        4 => (
+            "match-arm",
+            Expr::Match(
+                b(app(Expr::Ctor { ty: 0, tag: 0 }, vec![Expr::Int(1)])),
+                vec![
+                    (Pat::Ctor { ty: 0, tag: 0, args: vec![Pat::Var("mq".into())] }, prim("+", inner, var("mq"))),
+                    (Pat::Wild, Expr::Int(0)),
+                ],
+            ),
+        ),
+        5 => ("record-field", proj(record(vec![("fa", inner), ("fb", Expr::Int(2))]), "fa")),
+        6 => ("let-rhs-used", Expr::Let(Pat::Var("lz".into()), b(inner), b(var("lz")))),
+        7 => ("let-rhs-unused", Expr::Let(Pat::Var("lz".into()), b(inner), b(Expr::Int(5)))),
+        8 => ("if-branch", Expr::If(b(prim("<", Expr::Int(1), Expr::Int(2))), b(inner), b(Expr::Int(9)))),
+        _ => (
+            "unused-tuple-component",
+            Expr::Let(
+                Pat::Tup(vec![Pat::Wild, Pat::Var("tb".into())]),
+                b(Expr::Tuple(vec![inner, Expr::Int(4)])),
+                b(var("tb")),
+            ),
+        ),
+    };
+    (format!("{}@{}", fname, cname), e)
+}
+
+struct Inst<'a> {
+    rng: &'a mut gv::rng::Rng,
+    k: i64,
+    forms: std::collections::BTreeSet<&'static str>,
+    p_discard: u64,
+}
+
+impl<'a> Inst<'a> {
+    fn maybe_discard(&mut self, e: Expr) -> Expr {
+        if self.rng.chance(self.p_discard, 100) {
+            self.k += 1;
+            // failing forms are rarer: they end the program
+            let mut form = self.rng.below(N_FORMS as u64) as usize;
+            if (form == 3 || form == 5) && !self.rng.chance(1, 4) {
+                form = 1;
+            }
+            let (n, e2) = discard(form, 1000 + self.k, e);
+            self.forms.insert(n);
+            e2
+        } else {
+            e
+        }
+    }
+    /// Insert logging calls at Int positions and discarded computations in front of bodies.
+    fn go(&mut self, e: Expr) -> Expr {
+        let bx = |s: &mut Self, e: Box<Expr>| b(s.go(*e));
+        match e {
+            Expr::Int(n) => {
+                if self.rng.chance(1, 7) {
+                    self.forms.insert("vlog-int");
+                    app(var("vlog"), vec![Expr::Int(n)])
+                } else {
+                    Expr::Int(n)
+                }
+            }
+            Expr::Lam(xs, body) => {
+                let body = self.go(*body);
+                Expr::Lam(xs, b(self.maybe_discard(body)))
+            }
+            Expr::App(f, args) => {
+                let f = bx(self, f);
+                Expr::App(f, args.into_iter().map(|a| self.go(a)).collect())
+            }
+            Expr::Let(p, e1, e2) => {
+                let e1 = bx(self, e1);
+                let e2 = self.go(*e2);
+                Expr::Let(p, e1, b(self.maybe_discard(e2)))
+            }
+            Expr::LetFun(f, xs, e1, e2) => {
+                let e1 = self.go(*e1);
+                let e1 = self.maybe_discard(e1);
+                let e2 = bx(self, e2);
+                Expr::LetFun(f, xs, b(e1), e2)
+            }
+            Expr::LetRec(bs, body) => {
+                let bs = bs
+                    .into_iter()
+                    .map(|(f, xs, e)| {
+                        let e = self.go(e);
+                        // only function bodies (a recursive *value* must stay a constructor application)
+                        let e = if xs.is_empty() { e } else { self.maybe_discard(e) };
+                        (f, xs, e)
+                    })
+                    .collect();
+                Expr::LetRec(bs, bx(self, body))
+            }
+            Expr::If(c, a, bb) => {
+                let c = bx(self, c);
+                let a = self.go(*a);
+                let a = self.maybe_discard(a);
+                Expr::If(c, b(a), bx(self, bb))
+            }
+            Expr::Prim(op, a, bb) => {
+                let a = bx(self, a);
+                let bb = bx(self, bb);
+                let e = Expr::Prim(op, a, bb);
+                if matches!(op, "+" | "-" | "*" | "/") && self.rng.chance(1, 8) {
+                    self.forms.insert("vlog-arith");
+                    app(var("vlog"), vec![e])
+                } else {
+                    e
+                }
+            }
+            Expr::And(a, bb) => Expr::And(bx(self, a), bx(self, bb)),
+            Expr::Or(a, bb) => Expr::Or(bx(self, a), bx(self, bb)),
+            Expr::Match(s, alts) => {
+                let s = bx(self, s);
+                let alts = alts
+                    .into_iter()
+                    .map(|(p, e)| {
+                        let e = self.go(e);
+                        (p, self.maybe_discard(e))
+                    })
+                    .collect();
+                Expr::Match(s, alts)
+            }
+            Expr::Record { fields, base, layout } => Expr::Record {
+                fields: fields.into_iter().map(|(n, e)| (n, self.go(e))).collect(),
+                base: base.map(|x| bx(self, x)),
+                layout,
+            },
+            Expr::Proj(e, f, i) => Expr::Proj(bx(self, e), f, i),
+            Expr::Tuple(es) => Expr::Tuple(es.into_iter().map(|a| self.go(a)).collect()),
+            Expr::Array(es) => Expr::Array(es.into_iter().map(|a| self.go(a)).collect()),
+            other => other,
+        }
+    }
+}
+
+fn full_text(e: &Expr) -> String {
+    let t = surf::program_text(e);
+    match t.strip_prefix(surf::HEADER) {
+        Some(rest) => format!("{}{}{}", surf::HEADER, HEADER2, rest),
+        None => format!("{}{}", HEADER2, t),
+    }
+}
+
+// ---------------------------------------------------------------------------------------------
+// Child: runs one program both ways and dumps its core IR
+
+fn setup_vm(optimize: bool) -> RootedThread {
+    let vm = new_vm();
+    gv::vm::settings(&vm, false, optimize);
+    {
+        let mut db = vm.get_database_mut();
+        db.add_module("vmod".to_string(), VMOD);
+    }
+    vm
+}
+
+fn run_on(vm: &Thread, name: &str, src: &str) -> (String, Vec<i64>) {
+    LOG.lock().unwrap().clear();
+    let r = gv::catch(|| vm.run_expr::<AnyVal>(name, src));
+    let o = match r {
+        Err(p) => format!("panic {}", gv::quote(&p.chars().take(80).collect::<String>())),
+        Ok(Ok((v, _t))) => format!("(ok {})", surf::canon_value(v.get_variant())),
+        Ok(Err(e)) => surf::classify_error(&format!("{}", e)),
+    };
+    let log = LOG.lock().unwrap().clone();
+    (o, log)
+}
+
+fn child() {
+    let vm_a = setup_vm(false);
+    let vm_b = setup_vm(true);
+    let mut i = 0;
+    gv::child::serve(|src| {
+        i += 1;
+        let (oa, la) = run_on(&vm_a, &format!("a{}", i), src);
+        let (ob, lb) = run_on(&vm_b, &format!("b{}", i), src);
+        let core = if oa.starts_with("err:static") || oa.starts_with("panic") {
+            serde_json::json!({"error": "not compiled"})
+        } else {
+            match gv::catch(|| core_dump(&vm_a, &format!("c{}", i), src)) {
+                Ok(Ok(d)) => serde_json::json!({"input": d.input, "used": d.used, "dce": d.dce, "opt": d.opt}),
+                Ok(Err(e)) => serde_json::json!({"error": e.lines().next().unwrap_or("")}),
+                Err(p) => serde_json::json!({"error": format!("panic {}", p)}),
+            }
+        };
+        serde_json::json!({"oa": oa, "la": la, "ob": ob, "lb": lb, "core": core}).to_string()
+    });
+}
+
+// ---------------------------------------------------------------------------------------------
+// The property oracle, written from the property statement
+
+fn class_of(o: &str) -> String {
+    o.split(' ').next().unwrap_or("").trim_matches(|c| c == '(' || c == ')').to_string()
+}
+
+/// `None` when the optimised run is allowed by the property; otherwise what differs.
+fn allowed(oa: &str, la: &[i64], ob: &str, lb: &[i64]) -> Option<String> {
+    if oa == ob && la == lb {
+        return None;
+    }
+    // the only permitted difference: an unused builtin arithmetic operation was skipped, so the
+    // unoptimised run stopped with its overflow / division by zero and the optimised one went on
+    if oa == "err:arith" && lb.len() >= la.len() && lb[..la.len()] == *la {
+        return None;
+    }
+    let kind = if la != lb {
+        if lb.len() < la.len() && la[..lb.len()] == *lb {
+            "lost-calls"
+        } else if la.len() < lb.len() && lb[..la.len()] == *la {
+            "extra-calls"
+        } else {
+            "different-calls"
+        }
+    } else {
+        "outcome"
+    };
+    Some(format!("{}:{}->{}", kind, class_of(oa), class_of(ob)))
+}
+
+struct Prog {
+    label: String,
+    src: String,
+    constructs: Vec<String>,
+    targeted: bool,
+}
+
+fn judge(out: &mut gv::Out, p: &Prog, res: &Result<String, String>, idx: usize) {
+    let v: serde_json::Value = match res {
+        Ok(r) => serde_json::from_str(r).unwrap_or(serde_json::json!({"oa": "abort bad-json"})),
+        Err(class) => {
+            out.count("outcome:abort");
+            out.oracle_fail(
+                &format!("abort:{}", class),
+                &format!("a generated program made the pipeline abort: {}", class),
+                serde_json::json!({"source": p.src, "label": p.label}),
+            );
+            return;
+        }
+    };
+    let oa = v["oa"].as_str().unwrap_or("").to_string();
+    let ob = v["ob"].as_str().unwrap_or("").to_string();
+    let la: Vec<i64> = v["la"].as_array().map(|a| a.iter().filter_map(|x| x.as_i64()).collect()).unwrap_or_default();
+    let lb: Vec<i64> = v["lb"].as_array().map(|a| a.iter().filter_map(|x| x.as_i64()).collect()).unwrap_or_default();
+    let ca = class_of(&oa);
+    let cb = class_of(&ob);
+    out.count(&format!("outcome:{}", ca));
+    if ca == "err:static" && cb == "err:static" {
+        out.count("skipped:static-error");
+        out.count(&format!("reject:{}", oa));
+        if std::env::var("C04_DUMP").is_ok() {
+            eprintln!("=== {}\n{}", oa, p.src);
+        }
+        return;
+    }
+    if ca == "panic" && cb == "panic" {
+        // internal failure of the front end on both paths (C01's finding), same fingerprint as there
+        out.oracle_fail(
+            &format!("panic:{}", oa.trim_start_matches("panic ").trim_matches('"')),
+            &format!("a generated program made the pipeline fail internally: {}", oa),
+            serde_json::json!({"source": p.src, "label": p.label}),
+        );
+        return;
+    }
+    match allowed(&oa, &la, &ob, &lb) {
+        None => {
+            if oa != ob || la != lb {
+                out.count("allowed-difference:arith-skipped");
+            }
+        }
+        Some(diff) => {
+            let fp = if p.targeted { format!("opt-changes-behaviour:{}:{}", p.label, diff) } else { format!("opt-changes-behaviour:{}", diff) };
+            out.oracle_fail(
+                &fp,
+                &format!(
+                    "optimised and unoptimised runs differ ({}): optimize=false gives {} with calls {:?}; optimize=true gives {} with calls {:?}",
+                    diff, oa, la, ob, lb
+                ),
+                serde_json::json!({"source": p.src, "label": p.label}),
+            );
+        }
+    }
+    out.count(&format!("log-len:{}", match la.len() { 0 => "0", 1..=3 => "1-3", 4..=15 => "4-15", _ => "16+" }));
+    for c in &p.constructs {
+        out.count(&format!("construct:{}", c));
+    }
+    if p.constructs.len() >= 2 {
+        let mut key = p.constructs.clone();
+        key.push(ca.clone());
+        key.push(cb);
+        key.push(format!("log{}", la.len().min(6)));
+        out.class(key.join(","));
+    }
+    // structural correspondence on the core IR
+    let core = &v["core"];
+    if let Some(input) = core["input"].as_str() {
+        let used: Vec<String> = core["used"].as_array().map(|a| a.iter().filter_map(|x| x.as_str().map(|s| s.to_string())).collect()).unwrap_or_default();
+        let mut u = String::from("(used");
+        for n in &used {
+            u.push(' ');
+            u.push_str(n);
+        }
+        u.push(')');
+        let payload = format!(
+            "{} (dce {}) (opt {}) (kept true true) (closed true true)",
+            u,
+            core["dce"].as_str().unwrap_or(""),
+            core["opt"].as_str().unwrap_or("")
+        );
+        if core["dce"].as_str() != Some(input) {
+            out.count("core:dce-changed");
+        }
+        if core["opt"].as_str().map_or(false, |o| o.contains("dummy%")) {
+            out.count("core:unnecessary-alloc-dummy");
+        }
+        out.count(&format!("core:size:{}", match input.len() { 0..=999 => "<1k", 1000..=4999 => "1k-5k", _ => "5k+" }));
+        out.case(&format!("opt {}", input), &payload);
+    } else {
+        out.count("skipped:no-core");
+    }
+    if idx % 61 == 7 {
+        out.sample(serde_json::json!({"label": p.label, "source": p.src, "noopt": [oa, la], "opt": [ob, lb]}));
+    }
+}
+
 fn main() {
     gv::quiet_panics();
     let a: Vec<String> = std::env::args().collect();
@@ -110,4 +584,64 @@ fn main() {
         probe(&a[2]);
         return;
     }
+    if a.get(1).map(|s| s.as_str()) == Some("--child") {
+        child();
+        return;
+    }
+    let args = gv::Args::parse();
+    let mut out = gv::Out::new(&args.out);
+    if let Some(rp) = &args.replay {
+        let v: serde_json::Value = serde_json::from_str(&std::fs::read_to_string(rp).unwrap()).unwrap();
+        let src = v["case"]["source"].as_str().unwrap().to_string();
+        println!("{}", src);
+        let r = gv::child::batch(&["--child"], &[src], 1, std::time::Duration::from_secs(120));
+        println!("=> {:?}", r[0]);
+        out.finish();
+        return;
+    }
+    let mut progs: Vec<Prog> = vec![];
+    // corpus: minimised past failures first
+    if let Ok(rd) = std::fs::read_dir("/verif/corpus/C04") {
+        let mut files: Vec<_> = rd.filter_map(|e| e.ok()).map(|e| e.path()).filter(|p| p.extension().map_or(false, |x| x == "glu")).collect();
+        files.sort();
+        for f in files {
+            let src = std::fs::read_to_string(&f).unwrap();
+            progs.push(Prog {
+                label: format!("corpus:{}", f.file_stem().unwrap().to_string_lossy()),
+                src,
+                constructs: vec!["corpus".into(), "x".into()],
+                targeted: true,
+            });
+        }
+    }
+    // targeted stream: every discard form in every context
+    for form in 0..N_FORMS {
+        for ctx in 0..N_CTX {
+            let (label, e) = targeted(form, ctx);
+            let parts: Vec<String> = label.split('@').map(|s| s.to_string()).collect();
+            progs.push(Prog { label, src: full_text(&e), constructs: parts, targeted: true });
+        }
+    }
+    // random stream: gv::surf programs with logging calls and discarded computations inserted
+    let n = if args.thorough() { 6000 } else { 320 };
+    let mut rng = gv::rng::Rng::new(args.seed, 4);
+    for i in 0..n {
+        let depth = 2 + (i % 4) as u32;
+        let e = {
+            let mut g = surf::Gen::new(&mut rng);
+            g.program(depth).0
+        };
+        let mut inst = Inst { rng: &mut rng, k: 0, forms: Default::default(), p_discard: 18 + (i % 3) as u64 * 10 };
+        let e2 = inst.go(e);
+        let e2 = inst.maybe_discard(e2);
+        let mut cs: Vec<String> = surf::constructs(&e2).iter().map(|s| s.to_string()).collect();
+        cs.extend(inst.forms.iter().map(|s| format!("d:{}", s)));
+        progs.push(Prog { label: format!("random:{}", i), src: full_text(&e2), constructs: cs, targeted: false });
+    }
+    let inputs: Vec<String> = progs.iter().map(|p| p.src.clone()).collect();
+    let results = gv::child::batch(&["--child"], &inputs, 60, std::time::Duration::from_secs(600));
+    for (i, (p, r)) in progs.iter().zip(results.iter()).enumerate() {
+        judge(&mut out, p, r, i);
+    }
+    out.finish();
 }
